@@ -500,6 +500,9 @@ pub fn emit(id: &str, src: Option<&str>, st: &Staged, out: &mut String) {
         let impls = c01::impls_table(genv);
         writeln!(out, "{}\tCORE\t{}", id, core_case(genv, core).to_text()).unwrap();
         writeln!(out, "{}\tSTAGE\tcore\t{}", id, c01::prog(dump::core_file(core), &impls).to_text()).unwrap();
+        // inputs of the type-soundness / static-dispatch oracle (`gomlmodel tsound`)
+        writeln!(out, "{}\tGENV\t{}", id, crate::sexp::tagged("genv", vec![enums_s(genv.enums()), structs_s(genv.structs())]).to_text()).unwrap();
+        writeln!(out, "{}\tSIG\t{}\t{}", id, crate::c03::builtins_s(genv).to_text(), crate::c03::traits_s(genv).to_text()).unwrap();
         if let Some((m, env)) = &st.mono {
             writeln!(out, "{}\tMONO\t{}", id, mono_case(m, env).to_text()).unwrap();
             writeln!(out, "{}\tSTAGE\tmono\t{}", id, c01::prog(dump::mono_file(m), &impls).to_text()).unwrap();
